@@ -95,7 +95,7 @@ def canon_impl(case, out):
         if not trampipes.flat(case["tree"]):
             return out
         evs = []
-        for e in out["log"]:
+        for e in trampipes.events(out["log"]):
             if e[0] == "cb":
                 evs.append(["cb", int(e[1][4:]), _TAGS[e[1][:4]]])
             elif e[0] == "N":
